@@ -35,6 +35,10 @@ type Controller struct {
 	// ForkedDuring names the kind of the in-flight operation.
 	ForkedDuring string
 	Kinds        map[string]int
+	// Decide, if set, is asked before every mutating file operation (under the controller's lock, so no
+	// other file operation is in flight): it may order a kill at this very operation by returning a fork
+	// function (called after the optional torn prefix of a write has been performed).
+	Decide func(dir, kind string) (fork func(), torn int)
 }
 
 var (
@@ -131,6 +135,14 @@ func (s *stor2) op(kind string, tornWrite func(n int), do func() error) error {
 	defer c.mu.Unlock()
 	c.Ops++
 	c.Kinds[kind]++
+	if c.Decide != nil {
+		if fork, torn := c.Decide(s.dir, kind); fork != nil {
+			if tornWrite != nil && torn > 0 {
+				tornWrite(torn)
+			}
+			fork()
+		}
+	}
 	if c.KillAt > 0 && c.Ops == c.KillAt && !c.Forked {
 		if tornWrite != nil && c.Torn > 0 {
 			tornWrite(c.Torn)
@@ -204,6 +216,38 @@ func ForkNow(src, dst string) error {
 		defer c.mu.Unlock()
 	}
 	return copyDir(src, dst)
+}
+
+// CopyTree copies a directory recursively (used to fork a whole node directory), skipping LOCK files
+// and the volatile output databases.
+func CopyTree(src, dst string) error {
+	return filepath.Walk(src, func(p string, fi os.FileInfo, err error) error {
+		if err != nil {
+			return nil
+		}
+		rel, _ := filepath.Rel(src, p)
+		if fi.IsDir() {
+			if len(fi.Name()) > 17 && fi.Name()[:17] == "tmp-outputstream-" {
+				return filepath.SkipDir
+			}
+			return os.MkdirAll(filepath.Join(dst, rel), 0700)
+		}
+		if fi.Name() == "LOCK" {
+			return nil
+		}
+		in, err := os.Open(p)
+		if err != nil {
+			return nil
+		}
+		defer in.Close()
+		out, err := os.Create(filepath.Join(dst, rel))
+		if err != nil {
+			return err
+		}
+		defer out.Close()
+		_, err = io.Copy(out, in)
+		return err
+	})
 }
 
 func copyDir(src, dst string) error {
